@@ -58,7 +58,11 @@ theorem C06.never_back (s : State) (h : Inv s) (op : Op) (k : Nat) (hk : k < s.h
       · exact hn
   cases op with
   | sched sp clock => exact hsched sp clock false
-  | ctor sp clock => exact hsched sp clock true
+  | ctor sp clock jtz =>
+      simp only [SV.step]
+      split
+      · exact hsched sp clock true
+      · split <;> exact hn
   | del k' =>
       simp only [step, SV.deleteJob]
       split
